@@ -122,7 +122,24 @@ def sampler_correspondence(ctx, n):
         V = r.randint(2, 6)
         bag.append({'seed': r.randint(0, 10**6), 'V': V, 'D': r.randint(1, 3), 'mode': r.choice(['sum', 'mean']), 'pad': r.choice([None, None, 0, V - 1]),
                     'sizes': [r.randint(0 if i else 1, 4) for i in range(r.randint(1, 3))]})
-    res = vlib.run_impl('gs_samplers.py', {'lin': lin, 'emb': emb, 'conv': conv, 'bag': bag})
+    conv2 = []
+    for _ in range(max(10, n // 3)):
+        Kh, Kw, dh, dw = r.randint(1, 3), r.randint(1, 3), r.randint(1, 2), r.randint(1, 2)
+        pad = r.choice([(0, 0), (1, 0), (1, 2), 'same', 'valid'])
+        pm = r.choice(['zeros', 'zeros', 'circular', 'replicate'])
+        Hh, Ww = (Kh - 1) * dh + 1 + r.randint(0, 3), (Kw - 1) * dw + 1 + r.randint(0, 3)
+        if pm != 'zeros':
+            if pad in ('valid', (0, 0)):
+                pad = (1, 1)
+            if pad != 'same' and (pad[0] > Hh or pad[1] > Ww):
+                pad = (1, 1)
+        conv2.append({'seed': r.randint(0, 10**6), 'G': r.choice([1, 1, 2]), 'cg': r.randint(1, 2), 'og': r.randint(1, 2), 'K': [Kh, Kw],
+                      'stride': [1, 1] if pad == 'same' else [r.randint(1, 2), r.randint(1, 3)], 'dil': [dh, dw], 'pad': pad if isinstance(pad, str) else list(pad),
+                      'HW': [Hh, Ww], 'pmode': pm})
+    res = vlib.run_impl('gs_samplers.py', {'lin': lin, 'emb': emb, 'conv': conv, 'bag': bag, 'conv2': conv2})
+    c2i = ['(%d%%nat, %d%%nat, %d%%nat, %d%%nat, %d%%nat, %d%%nat, %d%%nat, (%d%%nat, %d%%nat), (%d%%nat, %d%%nat), %d%%nat, %s, %s, %s, %s)' % (
+           x['Ph'], x['Pw'], c['G'] * c['og'], c['cg'], c['K'][0], c['K'][1], c['og'], c['stride'][0], c['stride'][1], c['dil'][0], c['dil'][1], x['Wp'],
+           zll(x['xp']), zll(x['g']), zll(x['gw']), zl(x['gb'])) for c, x in zip(conv2, res['conv2'])]
     bi, bown = [], []
     for c, xs in zip(bag, res['bag']):
         for x in xs:
@@ -140,17 +157,18 @@ def sampler_correspondence(ctx, n):
             'Definition ccases : list (nat * nat * nat * nat * nat * nat * nat * list (list Z) * list (list Z) * list (list Z) * list Z) := [\n ' + ';\n '.join(ci) + '\n].\n'
             'Definition bcases : list (Z * nat * nat * nat * list Z * list Z * list (list Z)) := [\n ' + ';\n '.join(bi) + '\n].\n'
             'Eval vm_compute in (bad_idx lin_case_ok 0 lcases).\nEval vm_compute in (bad_idx emb_case_ok 0 ecases).\nEval vm_compute in (bad_idx conv_case_ok 0 ccases).\n'
-            'Eval vm_compute in (bad_idx bag_case_ok 0 bcases).\n')
+            'Definition c2cases : list (nat * nat * nat * nat * nat * nat * nat * (nat * nat) * (nat * nat) * nat * list (list Z) * list (list Z) * list (list Z) * list Z) := [\n ' + ';\n '.join(c2i) + '\n].\n'
+            'Eval vm_compute in (bad_idx bag_case_ok 0 bcases).\nEval vm_compute in (bad_idx conv2_case_ok 0 c2cases).\n')
     with vlib.CoqLock():
         vlib.coq_make(['Exec/RunGs.vo'])
         rc, out = vlib.coq_eval('cases_c01', hdr, body)
     lists = vlib.parse_eval_lists(out)
-    if rc != 0 or len(lists) != 4:
+    if rc != 0 or len(lists) != 5:
         ctx.obligation('correspondence:grad-sampler-formulas(model=impl, exact)', False, 'case file failed: ' + out[-600:])
         return
-    bad = [('linear', lin[i]) for i in lists[0]] + [('embedding', emb[i]) for i in lists[1]] + [('conv1d', conv[i]) for i in lists[2]] + [('embeddingbag', bown[i]) for i in lists[3]]
-    ctx.traces += len(lin) + len(emb) + len(conv) + len(bi)
-    for c in lin + emb + conv + bag:
+    bad = [('linear', lin[i]) for i in lists[0]] + [('embedding', emb[i]) for i in lists[1]] + [('conv1d', conv[i]) for i in lists[2]] + [('embeddingbag', bown[i]) for i in lists[3]] + [('conv2d', conv2[i]) for i in lists[4]]
+    ctx.traces += len(lin) + len(emb) + len(conv) + len(bi) + len(conv2)
+    for c in lin + emb + conv + bag + conv2:
         ctx.case(c, kind='sampler-direct')
     ctx.obligation('correspondence:grad-sampler-formulas(model=impl, exact)', not bad, '' if not bad else 'sampler output differs from the model formula on %s' % bad[:2])
     for kind, c in bad[:1]:
